@@ -368,7 +368,12 @@ func (c *conn) createChannel() (Channel, bool, status.Status) {
 
 	// Check again
 	if c.channelsClosed.Load() {
-		c.channels.Delete(id)
+		if _, ok := c.channels.Delete(id); !ok {
+			// The closing connection has already removed the channel and freed its own reference,
+			// only the user reference is left to release.
+			done = true
+			ch.Free()
+		}
 		return nil, false, statusConnClosed
 	}
 
